@@ -19,4 +19,19 @@ CLAIMS = {
         text='Decides that both branches of assign_to_nearest_center commit label and distance together and call the metric as metric(many, one) with the loop element as the single item; predict reuses fitted centres and metric; the rectangular and ragged branches of partition build identical fields from identical sources; partition_indices uses the strict boundary test with paired index/trajectory updates; find_cluster_centers maps a subset-relative argmin back through the same member array; partition_list uses checked running offsets; no argument is mutated.',
         note='Not decided: minimality of the reported distance as a number; value preservation by numpy slicing (trusted). ' + _TB,
         ref='DESIGN.md 5 C10'),
+    'C13': dict(
+        technique="Cython-parser tree of libdist.pyx: bounds-obligation discharge by union-find over harvested equalities, prange ownership, dominance of validation over kernel calls, same-buffer return rule, formula-shape match",
+        text='On Cython\'s own parse tree of the three boundscheck(False) kernels: every typed-buffer subscript is proved in range per dimension (loop ranges vs extents via equalities from cdef initialisers and asserts); each prange iteration writes only out[i] and reads no cell another iteration writes; out[i] is stored before accumulation; the five validation guards end in raise and dominate every kernel call; wrappers return the very validated buffer; accumulated terms have the metric\'s shape with no element-typed temporary; metric names map to the right kernels.',
+        note='Not decided: floating-point exactness, extreme integer ranges, behaviour per memory layout (delegated to Cython typed-buffer indexing; no raw pointers: checked). Python asserts in kernels are assumed enabled (Cython default). ' + _TB,
+        ref='DESIGN.md 5 C13'),
+    'C18': dict(
+        technique='Cython-parser kernel obligations (two-sided guards on data-dependent indices, prange ownership), axis-role rule for marginals, meshgrid orientation lint, masked-ufunc initialisation dataflow, argument-order/role checks',
+        text='Decides two-sided range guards for both data-dependent indices of the unchecked counting kernel, accumulator shape/zeroing and prange ownership; that the marginal summed over the last axis is indexed by the first state index (and vice versa) in mutual_information; that the channel-capacity grid has axes (n_x, n_y) and uses the smaller state count; that every masked ufunc has an initialised out=; that joint_counts passes (X, Y, n_x, n_y), casts the narrower dtype up, and pooled counts accumulate into fresh storage; no argument mutation.',
+        note='Not decided: the information-theoretic identities (non-negativity, symmetry, bounds) as numbers. bincount2d (unused, outside the observed API) is reported as OBSERVATION only. ' + _TB,
+        ref='DESIGN.md 5 C18'),
+    'C19': dict(
+        technique='package-wide initialisation dataflow (masked ufunc out=, np.empty full-write dominance), kernel zero-before-accumulate and prange ownership, interprocedural may-alias/effects fixed point over the call graph, module-state scan',
+        text='For the whole package on every run: every where= ufunc has an out= buffer initialised on all reaching definitions; every np.empty buffer is fully written before any read on every path; kernels store before accumulating and prange iterations own disjoint cells; no public routine of the anchored modules (plus clustering/MSM entry points) can store into storage reachable from an argument unless documented in place (alias/effects summaries to a fixed point); no anchored routine writes module state. These are all-paths facts, hence hold for every call history, heap state and thread count.',
+        note='Not decided: uninitialised reads/mutation inside third-party calls (trusted to documented contracts), BLAS bit-reproducibility, routines random by contract. Known finding F19 (reassign re-centres caller trajectories) is reported as KNOWN-FINDING. ' + _TB,
+        ref='DESIGN.md 5 C19'),
 }
